@@ -79,7 +79,7 @@ register(Prop(
     runs=[Run('life', quick=11, thorough=44, seeds_thorough=2),
           Run('life-pairs', quick=7, thorough=36, seeds_thorough=2),
           Run('life-srv', quick=5, thorough=20, seeds_thorough=2),
-          Run('life-chunked', quick=3, thorough=12, seeds_thorough=1, extra=())],
+          Run('life-chunked', quick=5, thorough=14, seeds_thorough=1, extra=())],
     oracle=life_oracle, nontrivial=life_nontrivial, spec_total=False,
     classes={'recv_parked': recv_parked},
     assumptions=LIFE_ASSUMPTIONS,
